@@ -1,6 +1,8 @@
 (* C20: async_handle against handle.  The full statement is refuted by the faithful model
-   (four witnesses, each replayed on the real code by props/c20.py); outside the narrow class
-   [known_class] of those defects the two handlers are equal -- not only observably. *)
+   (one witness left: the size gate of async_write, replayed on the real code by props/c20.py; the
+   other three defects were repaired in /repo by fix: commits 2dcabb6 and 45bf06c and the model followed
+   through its translated [shape]); outside the narrow class [known_class] the two handlers are equal --
+   not only observably. *)
 From Coq Require Import List String NArith Bool Lia Arith.
 From FB Require Import Lib.Bytes Model.Server Model.ServerCmp Model.ServerAsync
                        Proofs.ServerPerform Proofs.ServerAsyncPerform Proofs.ServerAsyncHandlers.
@@ -34,7 +36,29 @@ Definition known_class_gen (sh : shape) (cfg : config) (k : transport) (cap : N)
     end
   end.
 
-Definition known_class := known_class_gen code_shape.
+(* the code as it is (after 2dcabb6 and 45bf06c): one defect left, one disjunct.
+   D11b  async_write refuses size > MAX_BUFFER_SIZE with ENOMEM before calling the filesystem *)
+Definition known_class (cfg : config) (k : transport) (cap : N) (req : bytes) (fr : fsres) : bool :=
+  match read_obj 40 req with
+  | None => false
+  | Some (hb, r) =>
+    let h := parse_hdr hb in
+    match cfg_remap cfg with
+    | RemapFail => false
+    | RemapOk _ _ => negb (oversize h) && (h_opcode h =? 16) && big_write r
+    end
+  end.
+
+Lemma known_class_is_code_class cfg k cap req fr :
+  known_class_gen code_shape cfg k cap req fr = known_class cfg k cap req fr.
+Proof.
+  unfold known_class_gen, known_class.
+  destruct (read_obj 40 req) as [[hb r]|]; [|reflexivity].
+  destruct (cfg_remap cfg); [|reflexivity].
+  change (sh_gate_capacity code_shape) with false. change (sh_gate_exempts_forget code_shape) with true.
+  change (sh_write_gate code_shape) with true. change (sh_commit_skips code_shape) with true.
+  cbn [negb andb orb]. rewrite orb_false_r. reflexivity.
+Qed.
 
 (* ------------------------------------------------------------------ decide *)
 Definition adec_to_sync (d : adecision * option N) : decision * option N :=
@@ -117,7 +141,7 @@ Qed.
 Theorem async_handle_eq cfg k cap buf0 req fr :
   async_expressible fr = true -> known_class cfg k cap req fr = false ->
   async_handle cfg k cap buf0 req fr = handle cfg k cap req fr.
-Proof. apply async_handle_gen_eq. Qed.
+Proof. intros Hx Hk. apply async_handle_gen_eq; [exact Hx | rewrite known_class_is_code_class; exact Hk]. Qed.
 
 (* the code after the three proposed patches: the class is empty and the full statement holds *)
 Lemma known_class_fixed_empty cfg k cap req fr : known_class_gen fixed_shape cfg k cap req fr = false.
@@ -153,21 +177,6 @@ Definition cfg0 : config := {| cfg_minor := 33; cfg_remap := RemapOk 0 0; cfg_vu
 Definition hdr_bytes (len op unique nodeid : N) : bytes :=
   enc 4 len ++ enc 4 op ++ enc 8 unique ++ enc 8 nodeid ++ enc 16 0.
 
-(* D11a: FORGET whose length field says 2^20 + 4097: ENOMEM reply on the async path, silence on the sync path *)
-Definition w_forget_req : bytes := hdr_bytes (1048576 + 4097) 2 7 1 ++ enc 8 1.
-Lemma witness_forget_oversize :
-  observable Virtio (async_handle cfg0 Virtio 4096 [] w_forget_req FUnit)
-  <> observable Virtio (handle cfg0 Virtio 4096 w_forget_req FUnit).
-Proof. intro H. vm_compute in H. discriminate H. Qed.
-
-(* D11c: a virtio FORGET carries no writable descriptor (capacity 0): the sync path forgets, the async path
-   stops at its gate and the filesystem never sees the FORGET *)
-Definition w_forget_nocap_req : bytes := hdr_bytes 48 2 7 1 ++ enc 8 1.
-Lemma witness_small_capacity :
-  observable Virtio (async_handle cfg0 Virtio 0 [] w_forget_nocap_req FUnit)
-  <> observable Virtio (handle cfg0 Virtio 0 w_forget_nocap_req FUnit).
-Proof. intro H. vm_compute in H. discriminate H. Qed.
-
 (* D11b: WRITE with size = MAX_BUFFER_SIZE + 1 *)
 Definition w_write_req : bytes :=
   hdr_bytes 80 16 7 1 ++ enc 8 3 ++ enc 8 0 ++ enc 4 (1048576 + 1) ++ enc 4 0 ++ enc 8 0 ++ enc 4 0 ++ enc 4 0.
@@ -176,36 +185,33 @@ Lemma witness_write_size :
   <> observable Virtio (handle cfg0 Virtio 4096 w_write_req (FCount 0)).
 Proof. intro H. vm_compute in H. discriminate H. Qed.
 
-(* D14: GETATTR answered ENOENT on fusedev: the async path writes the reply and then 16 stale bytes *)
+(* the inputs that used to witness the three repaired defects (oversized FORGET; FORGET without reply
+   capacity; GETATTR error on fusedev) now behave alike on both paths *)
+Definition w_forget_req : bytes := hdr_bytes (1048576 + 4097) 2 7 1 ++ enc 8 1.
+Definition w_forget_nocap_req : bytes := hdr_bytes 48 2 7 1 ++ enc 8 1.
 Definition w_getattr_req : bytes := hdr_bytes 56 3 7 1 ++ enc 16 0.
-Lemma witness_stale_rewrite :
-  observable FuseDev (async_handle cfg0 FuseDev 4096 (repeat 165 16) w_getattr_req (FErr (Os 2)))
-  <> observable FuseDev (handle cfg0 FuseDev 4096 w_getattr_req (FErr (Os 2))).
-Proof. intro H. vm_compute in H. discriminate H. Qed.
-
-Lemma witness_stale_packets :
-  v_packets (observable FuseDev (async_handle cfg0 FuseDev 4096 (repeat 165 16) w_getattr_req (FErr (Os 2))))
-  = [out_header 16 (neg32 2) 7; repeat 165 16].
-Proof. vm_compute. reflexivity. Qed.
+Lemma repaired_witnesses_agree :
+  async_handle cfg0 Virtio 4096 [] w_forget_req FUnit = handle cfg0 Virtio 4096 w_forget_req FUnit /\
+  async_handle cfg0 Virtio 0 [] w_forget_nocap_req FUnit = handle cfg0 Virtio 0 w_forget_nocap_req FUnit /\
+  async_handle cfg0 FuseDev 4096 (repeat 165 16) w_getattr_req (FErr (Os 2)) = handle cfg0 FuseDev 4096 w_getattr_req (FErr (Os 2)).
+Proof. repeat split; apply async_handle_eq; vm_compute; reflexivity. Qed.
 
 Theorem full_refuted : ~ C20_full_stmt.
 Proof.
-  intro F. apply witness_forget_oversize. apply F. reflexivity.
+  intro F. apply witness_write_size. apply F. reflexivity.
 Qed.
 
-(* each witness lies in the class, and the class is not everything: ordinary requests are outside it *)
+(* the witness lies in the class, and the class is not everything: ordinary requests are outside it *)
 Lemma witnesses_in_class :
-  known_class cfg0 Virtio 4096 w_forget_req FUnit = true /\
-  known_class cfg0 Virtio 0 w_forget_nocap_req FUnit = true /\
   known_class cfg0 Virtio 4096 w_write_req (FCount 0) = true /\
-  known_class cfg0 FuseDev 4096 w_getattr_req (FErr (Os 2)) = true.
+  known_class cfg0 FuseDev 4096 w_write_req (FErr (Os 5)) = true.
 Proof. vm_compute. auto. Qed.
 
 Lemma class_nonvacuous :
-  known_class cfg0 FuseDev 4096 w_getattr_req (FAttr {| st_ino := 1; st_size := 2; st_blocks := 3; st_atime := 4; st_mtime := 5; st_ctime := 6;
-      st_atime_nsec := 7; st_mtime_nsec := 8; st_ctime_nsec := 9; st_mode := 10; st_nlink := 11; st_uid := 12; st_gid := 13; st_rdev := 14; st_blksize := 15 |} 1 2) = false /\
-  known_class cfg0 Virtio 4096 w_getattr_req (FErr (Os 2)) = false /\
-  known_class cfg0 Virtio 64 (hdr_bytes 48 2 7 1 ++ enc 8 1) FUnit = false.
+  known_class cfg0 FuseDev 4096 w_getattr_req (FErr (Os 2)) = false /\
+  known_class cfg0 Virtio 0 w_forget_nocap_req FUnit = false /\
+  known_class cfg0 Virtio 4096 w_forget_req FUnit = false /\
+  known_class cfg0 Virtio 4096 (hdr_bytes 80 16 7 1 ++ enc 8 3 ++ enc 8 0 ++ enc 4 1048576 ++ enc 4 0 ++ enc 8 0 ++ enc 4 0 ++ enc 4 0) (FCount 0) = false.
 Proof. vm_compute. auto. Qed.
 
 (* why the statement is restricted to [async_expressible]: a passthrough id returned by the sync open
